@@ -125,6 +125,12 @@ def main():
             # allele list of the record
             ref, alt = f[3], ([] if f[4] == "." else f[4].split(","))
             alleles = [ref] + alt
+            derived = {m.derived_state for m in site.mutations}
+            exp_alt = derived - {site.ancestral_state}
+            if "" not in derived and site.ancestral_state != "":
+                if (not exp_alt and f[4] != ".") or (exp_alt and set(alt) != exp_alt) or f[4] == "":
+                    run.violation("ALT lists exactly the derived alleles of the site, '.' when there are none",
+                                  dict(desc, site=sid), {"record": line}, sorted(exp_alt) or ".")
             if ref != site.ancestral_state:
                 run.violation("REF is the ancestral state", dict(desc, site=sid), ref, site.ancestral_state)
             pos = int(f[1])
@@ -157,4 +163,4 @@ def main():
 
 
 if __name__ == "__main__":
-    main()
+    O.run_main(main)
